@@ -82,6 +82,7 @@ def run(chk):
         x86db = None
     if x86db:
         x86db.run(chk, enum)
+        x86db.run_modmr(chk, emit, enum)
 
     # C01.d generated tables in sync (thorough tier: the regeneration also runs under C12/C13 quick)
     if chk.tier == "thorough":
